@@ -170,9 +170,16 @@ def _shard_a(shard, seed, tier):
     part = core.Partial()
     handlers, idxs = shard
     reqs = _requests(tier)
+    timeouts = 0
     for i in idxs:
         label, p, data, tls = reqs[i]
         r, bad = _case_a(handlers, data, tls, p if label != "raw" else None)
+        if isinstance(r.escaped, rig.RequestTimeout):
+            timeouts += 1
+            if timeouts >= 4:
+                part.violation("a|%s|%s|tls=%d|escaped:RequestTimeout" % (handlers, ascii(data[:200]), tls), r.describe_error(), {"part": "a", "handlers": handlers, "data": data, "tls": tls, "sel": None})
+                part.extra.setdefault("capped", []).append("shard aborted after %d requests exceeded the time limit" % timeouts)
+                break
         part.evaluations += 1
         part.transitions += 1
         part.state(handlers, data, tls)
@@ -304,7 +311,9 @@ def run(ck):
     for handlers in ("full", "default"):
         for ch in core.chunks(order, core.NPROC * 2):
             shards.append((handlers, ch))
-    ck.pmap(_shard_a, shards)
+    pa = ck.pmap(_shard_a, shards)
+    if pa.extra.get("capped"):
+        ck.caps.append("%d shard(s) aborted early after repeated request timeouts" % len(pa.extra["capped"]))
     depth = 3 if ck.tier == "quick" else 4
     menu = range(len(MENU_B)) if ck.tier == "thorough" else range(12)
     hists = list(itertools.product(range(len(MENU_B)), repeat=2))  # every ordered pair of the full menu
